@@ -472,6 +472,11 @@ func c14Run(t *testing.T, tape *simrt.Tape, o simwork.Opts) *simwork.Result {
 		}), sink)
 		rw := &scriptedRW{hdr: http.Header{}, w: simio.NewWriter()}
 		sreq := mkReq(inner, headers)
+		if tape.Bool(1, 2, "request-length-known") {
+			// the length is known without a Content-Length header (HTTP/2 END_STREAM on
+			// the headers, a GET): the trace may mention it, the request must not change
+			sreq.ContentLength = int64(delivered)
+		}
 		sentReqHdr, sentReqLen = sreq.Header.Clone(), sreq.ContentLength
 		h.ServeHTTP(rw, sreq)
 	case "server-response":
@@ -571,6 +576,9 @@ func c14Run(t *testing.T, tape *simrt.Tape, o simwork.Opts) *simwork.Result {
 			}
 		}), sink)
 		sreq := mkReq(io.NopCloser(bytes.NewReader(nil)), http.Header{"Content-Type": {"application/proto"}})
+		if tape.Bool(1, 2, "request-length-known") {
+			sreq.ContentLength = 0
+		}
 		sentReqHdr, sentReqLen = sreq.Header.Clone(), sreq.ContentLength
 		func() {
 			defer func() {
